@@ -8,7 +8,10 @@ import tempfile
 
 from anchors import INT_ANCHORS, FLOAT_ANCHORS, UNSET
 
-PATTERNS = {'p1': '[a-cé\U0001F642 ]+', 'p2': '[0-9]*', 'p0': ''}      # p0: a pattern argument that is given but empty
+# p1: the FIRST alternative matches only a proper prefix of every text longer than one character, so a whole-text match
+# exists only through the second alternative (a matcher that commits to the leftmost alternative misses it)
+# p0: a pattern argument that is given but empty
+PATTERNS = {'p1': '[a-cé\U0001F642]|[a-cé\U0001F642 ]+', 'p2': '[0-9]*', 'p0': ''}
 TS_FORMATS = {'f1': '%Y-%m-%dT%H:%M:%SZ', 'f2': '%Y-%m-%d', 'f3': '%Y-%m-%dT%H:%M:%S.%fZ'}      # f3 carries fractions of a second
 
 
